@@ -8,7 +8,7 @@ ID = 'C01'
 LEVEL = 'exploration'
 SALTS = 8
 GUARD_STEPS = 250
-RULE = ('every 3rd run = its slice of a systematic enumeration: every quantifier node shape ([negated] quantifier over a [negated] body from 6 bodies, 48 shapes) in 23 small first-order contexts, in one logic per distinct rule-implementation group (quick) / every quantified logic (thorough), one seeded configuration each; the other runs: each run = one generated argument (propositional / modal / first-order with identity; 30% mutated library examples) '
+RULE = ('every 3rd run = its slice of a systematic enumeration: every quantifier node shape ([negated] quantifier over a [negated] body from 6 bodies, 48 shapes) in 23 small first-order contexts, in one logic per distinct rule-implementation group (quick) / every quantified logic (thorough), one seeded configuration each, plus a propositional scale sweep (n = 1..20 copies of one letter against n-1 / n / n+1 distinct letters, invalid by construction with a known counter-valuation); the other runs: each run = one generated argument (propositional / modal / first-order with identity; 30% mutated library examples) '
         'in one of the 57 logics (stratified), proved K times (quick 3, thorough 6) under different optimisation-option '
         'combinations, drive modes, seeded tie-break orders and cache sizes; whenever a run completes with every branch closed, '
         '(a) the bounded countermodel search of the reference semantics R1 (exhaustive valuations for propositional arguments; '
@@ -201,6 +201,35 @@ def run(ctx):
             judge_family(ctx, [proofsim.Config(logics[e % len(logics)], prems, conc, opts,
                 order_seed=srng.choice((0, srng.getrandbits(32))), cache=srng.choice(proofsim.CACHE_SIZES), drive='build')], record=False)
             if ctx.violations:
+                return
+        # scale sweep (propositional): n = 1..20 copies of one letter against n-1 / n / n+1 distinct
+        # letters, invalid by construction with a known counter-valuation (checked by R1's evaluator)
+        reps = [l for l in fo_representatives()]
+        cases = [c for c in proofwl.scale_cases() if not c[3]]
+        nsc = len(reps) * len(cases)
+        per2 = -(-nsc // nslices)
+        for k in range(j * per2, min(nsc, (j + 1) * per2)):
+            logic = reps[k % len(reps)]
+            sem = refsem.get(logic)
+            prems, conc, val = proofwl.scale_case(sem, cases[k // len(reps)])
+            m = refsem.RModel()
+            for a, v in val.items():
+                m.atom[(0, a)] = v
+            if not sem.is_countermodel(m, prems, conc):
+                continue
+            opts = dict(proofwl.ALL_OPT_COMBOS[srng.randrange(4)])
+            opts['is_build_models'] = False
+            opts['max_steps'] = 100
+            cfg = proofsim.Config(logic, prems, conc, opts, order_seed=srng.choice((0, srng.getrandbits(32))),
+                cache=srng.choice(proofsim.CACHE_SIZES), drive='build')
+            res = proofsim.run(cfg)
+            ctx.count('scale_cases')
+            ctx.log('scale', logic, cases[k // len(reps)], res.outcome)
+            if res.outcome == 'valid':
+                cause = diagnose.unsound(sem, res.tab, m, frames=False)
+                key = 'unsound|' + cause if cause.startswith(('rule=', 'closure=')) else 'unsound|%s|%s|scale' % (logic, cause)
+                proofcheck.report(ctx, ID, 'unsound', cfg, '%s %s: reported valid, but the valuation that makes %s designated and the conclusion undesignated is a countermodel by R1 (%s)' % (
+                    logic, lexgen.argstr(prems, conc)[:120], 'every premise', cause), key)
                 return
         return
     judge_family(ctx, make_family(ctx))
